@@ -249,9 +249,16 @@ def rich_problem(rng, spacer_default=False, small=False):
     wl.random_power(rng, P, max_cells=3, max_order=2)
     bcs = ['flowrate', 'outlet_temp', 'delta_temp']
     npos = 1 if small else 7
+    # in half of the problems runs of neighbouring positions share one
+    # Assignment line (same type, same boundary condition)
+    shared = (not small) and rng.random() < 0.5
+    feats['shared_lines'] = bool(shared)
+    P['merge_lines'] = bool(shared)
     for k0 in range(npos):
         ring, pos = gen.ring_pos(k0)
         tn = 'fuel' if k0 in (0, 1, 3, 5) else 'ctrl'
+        if shared:
+            tn = 'fuel' if k0 in (0, 1, 2, 3) else 'ctrl'
         rise = _r(rng.uniform(40.0, 140.0), 2)
         gen.add_position(P, tn, ring, pos,
                          velocity=wl.loguniform(rng, 0.5, 5.0), dT=rise,
@@ -264,6 +271,10 @@ def rich_problem(rng, spacer_default=False, small=False):
         elif bc == 'delta_temp':
             a['flowrate'] = None
             a['delta_temp'] = rise
+        if shared and k0 in (2, 3, 5, 6):
+            b = P['positions'][-2]
+            for kk in ('flowrate', 'outlet_temp', 'delta_temp'):
+                a[kk] = b.get(kk)
     # --- setup
     st = P['setup']
     st['axial_mesh_size'] = float(wl.choose(rng, [0.002, 0.0025, 0.004,
@@ -881,6 +892,22 @@ def reactor_problem(case, rng):
             a['delta_temp'] = _r(rise, 3)
             a['flowrate'] = None
             feats['bc_delta'] = True
+    if case.get('core') and rng.random() < 0.5:
+        # neighbours of one type on a ring share the first one's boundary
+        # condition and are written as one Assignment line
+        P['merge_lines'] = True
+        prev = None
+        for a in P['positions']:
+            if prev is not None and a['type'] == prev['type'] and \
+                    a['ring'] == prev['ring'] and a['pos'] == prev['pos'] + 1:
+                k0 = gen.pos_index0(a['ring'], a['pos'])
+                sp = P['power']['asm'][str(k0)]
+                if not (prev.get('flowrate') is None and
+                        (sp.get('shape') == 'zero' or sp['total'] <= 0)):
+                    for kk in ('flowrate', 'outlet_temp', 'delta_temp'):
+                        a[kk] = prev.get(kk)
+                    feats['shared_lines'] = True
+            prev = a
     if rng.random() < 0.6:
         P['setup']['axial_mesh_size'] = float(wl.choose(
             rng, [0.001, 0.002, 0.0025, 0.004, 0.005, 0.01]))
